@@ -1,0 +1,14 @@
+//go:build verif
+
+package rewrite
+
+// Comment-only file: machine-checked contracts for /verif (see /verif/DESIGN.md).
+// There is no code in this file; the build tag keeps it out of every normal build.
+//
+// C17 - "builders and options not selected by a rule are unchanged": the glue that applies option rules
+// runs an action only on an option the rule's selector selected, handing it the builder that owns the
+// option and the schemas it was given (obligation on the state in which the action is entered).
+//@ func (*Rewriter).applyOptionRules
+//@   property C17
+//@   requires engine != nil
+//@   at-call "option.fieldfn:RewriteRule.Action" selected: $arg0 == schemas && apply(rule.Selector, $arg1, $arg2)
